@@ -71,6 +71,15 @@ async def main():
                 if got != want or len(vis) + len(lck) != 2:
                     return True, (f"two USERS directories (one for carol, one for dave): query('tune', username={user!r}) lists {got} as normal results "
                                   f"and {sorted(i.filename for i in lck)} as locked"), {'user': user, 'scenario': 'two directories of one mode'}
+        # 0b. entitlement is evaluated per request: a friend that is removed from the friends list no longer gets the friends-only files as
+        #     normal shares, also when the same reply was built for that user before
+        before_v, _ = sm.create_shares_reply('alice')
+        client.settings.users.friends = set()
+        after_v, after_l = sm.create_shares_reply('alice')
+        leaked = [dd.name for dd in after_v if dd.name.startswith('@@' + dirs['fri'].alias) and dd.files]
+        client.settings.users.friends = {'alice'}
+        if leaked:
+            return True, f'alice was removed from the friends list: create_shares_reply(alice) still lists {leaked} as normal shares', {'scenario': 'friend removed'}
         # 1. queries, replies, item lookups per user
         for user in USERS:
             vis, lck = sm.query('song', username=user)
